@@ -31,7 +31,7 @@ static struct aws_task tasks[MAXT + 1];
 static int invoked_seen[MAXT + 1];
 static int sched_started[MAXT + 1];
 static int in_fn[MAXT + 1];
-static int cancel_out[MAXT + 1]; /* a cancel request was issued for the current hand-over */
+static int cancel_out[MAXT + 1]; /* cancel requests issued for the current hand-over */
 static int tainted[MAXT + 1];    /* the task ran although a cancel request was on its way: the request may still be queued
                                   * (cancellation is asynchronous and leaves no trace the caller could wait for), so the
                                   * task object is not handed over again */
@@ -75,7 +75,9 @@ static void task_fn(struct aws_task *task, void *arg, enum aws_task_status statu
     (void)task;
     int t = (int)(intptr_t)arg;
     invoked_seen[t] = 1;
-    if (cancel_out[t] && status == AWS_TASK_STATUS_RUN_READY) {
+    /* one request is used up by a CANCELED invocation; any other one outstanding (the task ran although a request was on
+     * its way, or two threads asked for the same cancellation) may still be queued */
+    if (cancel_out[t] > (status == AWS_TASK_STATUS_CANCELED ? 1 : 0)) {
         tainted[t] = 1;
     }
     cancel_out[t] = 0;
@@ -153,7 +155,7 @@ static void do_sched_op(const char *op, int client) {
         aws_thread_scheduler_schedule_future(sched, &tasks[t], at);
     } else if (op[0] == 'X') {
         if (sched_started[t] && !invoked_seen[t]) {
-            cancel_out[t] = 1;
+            cancel_out[t]++;
             vh_begin("Cancel");
             vh_int("task", t);
             vh_int("client", client);
